@@ -48,6 +48,11 @@ type Contract struct {
 	Counts     [][2]string // ghost call counters: (name, callee pattern)
 	Shared     []string    // locations other goroutines may write: havoced at blocking operations
 	HavocPreserves []string // struct types (pkg.Type) assumed not to be written by uncontracted callees
+	// contracts on function literals ("Parent$N")
+	IsClosure    bool
+	FreeVars     string   // "name T, ..." : captured variables (by reference), in the literal's scope
+	FreeVarNames []string
+	NOwnParams   int
 	// resolved
 	CalleeKey string
 	// synthetic param list text (names) in order
@@ -236,6 +241,8 @@ func parseContractFile(path string) (*ContractFile, error) {
 						cur.PureParams = append(cur.PureParams, strings.TrimSpace(m))
 					}
 				}
+			case "freevars":
+				cur.FreeVars = rest
 			case "havoc_preserves":
 				for _, m := range splitTop(rest, ',') {
 					cur.HavocPreserves = append(cur.HavocPreserves, strings.TrimSpace(m))
